@@ -57,6 +57,24 @@ def other_int(v, lo=0, hi=U64):
     return v + 1 if v < hi else v - 1
 
 
+_M61 = (1 << 61) - 1
+
+
+def hash_twin(v, signed):
+    """Another integer of the field's range with the same CPython hash
+    (hash(-1) == hash(-2); otherwise |v| +- (2**61 - 1)), or None."""
+    if v == -1:
+        return -2
+    if v == -2:
+        return -1
+    lo, hi = (-(1 << 63), (1 << 63) - 1) if signed else (0, U64)
+    for w in ((v + _M61, v + 2 * _M61) if v >= 0 else (v - _M61,)) + (
+            (v - _M61,) if v >= _M61 else ()):
+        if lo <= w <= hi and hash(w) == hash(v):
+            return w
+    return None
+
+
 def perturbations(sp, rnd, gt):
     E = contract.ENUMS
     out = []
@@ -111,6 +129,12 @@ def perturbations(sp, rnd, gt):
                     emit(label, lambda s2, p=path, k=key:
                          locate(s2, p).__setitem__(
                              k, other_int(locate(s2, p)[k])))
+                # equal hash, different value: an equality short-cut
+                # through hash() must not make the two equal
+                tw = hash_twin(v, signed=(kind == "expr"))
+                if tw is not None:
+                    emit(label + ":hash-twin", lambda s2, p=path, k=key,
+                         tw=tw: locate(s2, p).__setitem__(k, tw))
                 if key == "address":
                     emit(label + ":to-None", lambda s2, p=path:
                          locate(s2, p).__setitem__("address", None))
